@@ -1,8 +1,480 @@
-import Strophe.Model.TlsTrust
+/-
+C08 — A TLS session is only trusted if the certificate verifies or the user said so.
+Property theorems only.
+
+Model: `Strophe/Model/TlsTrust.lean` = the decision logic libstrophe puts around OpenSSL
+(tls_new's verification configuration, _tls_verify, tls_start, conn_tls_start,
+xmpp_conn_is_secured, what conn_established / _handle_proceedtls_default / the write pass of
+xmpp_run_once do after a failed start).  OpenSSL is the parameter `Engine` under the named
+hypothesis H-openssl (`Spec.OpenSsl.HOpenSsl E P`, P = the peer: does it complete the handshake,
+which verification events does OpenSSL report for it under a configuration, what its certificate
+chain is).  The hypothesis is satisfiable (`h_openssl_satisfiable`) and is checked clause by clause
+on every recorded run of the real OpenSSL by the correspondence engine `tls`.
+
+PROVED (for every policy, every handler — any function of invocation index, depth and error code —,
+every peer, any number of failing certificates, every engine satisfying H-openssl):
+`secured_iff`, `secured_iff_good`, `secured_sound`, `no_callback_aborts`, `reject_one_aborts`,
+`trust_flag_skips_verification`, `handler_sees_failures_in_order`, `failed_start_restores`,
+`failed_handshake_marks_connection`, `never_cleartext_after_failure_*`, `data_over_tls_only_if_secured`,
+`torn_down_stays_silent`, the configuration theorems `config_*`, `refused_domains`, the tie to the
+connection machine `same_transition_as_conn_machine`, and the 7 x 4 x 3 x 2 decision table.
+ASSUMED: H-openssl — in particular that OpenSSL reports no failure exactly for chains that reach a
+configured trust anchor, are inside their validity periods and name the pinned host; X.509 path
+validation and name matching themselves are OpenSSL's.
+TESTED (engine `tls`, check/props/c08.py): that the real tls_openssl.c / conn.c / auth.c / event.c
+behave as the model on every generated cell, and — independently of model and OpenSSL's report —
+that the property holds on the real code with certificates whose ground truth the generator knows.
+-/
+import Strophe.Lemmas.TlsTrust
+import Strophe.Lemmas.TlsTrustConn
 
 namespace Strophe.C08
-open Strophe Strophe.TlsTrust Strophe.Spec.OpenSsl
+open Strophe Strophe.Spec.OpenSsl Strophe.TlsTrust Strophe.Lemmas.TlsTrust
 
-theorem pin_verify_modes : Gen.Tls.sslVerifyNone = 0 ∧ Gen.Tls.sslVerifyPeer = 1 := by decide
+/-! ### pinning: what the property names, as read from the sources on this run -/
+
+/-- tls_new: SSL_VERIFY_NONE without callback under the trust flag, SSL_VERIFY_PEER with
+    `_tls_verify` otherwise -/
+theorem pin_verify_modes :
+    Gen.Tls.verifyModeTrustName = "SSL_VERIFY_NONE" ∧ Gen.Tls.callbackTrustName = "NULL" ∧
+    Gen.Tls.verifyModeDefaultName = "SSL_VERIFY_PEER" ∧ Gen.Tls.callbackDefaultName = "_tls_verify" ∧
+    Gen.Tls.sslVerifyNone = 0 ∧ Gen.Tls.sslVerifyPeer = 1 ∧
+    Gen.Tls.verifyModeTrust = Gen.Tls.sslVerifyNone ∧ Gen.Tls.verifyModeDefault = Gen.Tls.sslVerifyPeer := by
+  decide
+
+/-- tls_new: the pinned host and the SNI name are `conn->domain`; the host flags are exactly
+    X509_CHECK_FLAG_NO_PARTIAL_WILDCARDS (= 4) -/
+theorem pin_host :
+    Gen.Tls.hostExpr = "conn->domain" ∧ Gen.Tls.hostLenArg = "0" ∧ Gen.Tls.sniExpr = "conn->domain" ∧
+    Gen.Tls.hostFlagNames = ["X509_CHECK_FLAG_NO_PARTIAL_WILDCARDS"] ∧
+    Gen.Tls.hostFlags = Gen.Tls.noPartialWildcards ∧ Gen.Tls.noPartialWildcards = 4 ∧
+    Gen.Tls.errHostnameMismatch = 62 := by
+  decide
+
+/-- _tls_verify: 1 for a certificate that passed, 0 without a handler, else the handler's answer -/
+theorem pin_verify_callback :
+    Gen.Tls.verifyRetPreverified = 1 ∧ Gen.Tls.verifyRetNoHandler = 0 ∧
+    Gen.Tls.verifyReturnsHandlerAnswer = true ∧ Gen.Tls.tlsStartReturn = "ret <= 0 ? 0 : 1" := by
+  decide
+
+/-- conn_tls_start: return codes; `secured = 1` only in the success branch and nowhere else in conn.c;
+    the failure branch sets tls_failed, restores the interface, frees the TLS object, stores the
+    error; xmpp_conn_is_secured is the conjunction the model uses -/
+theorem pin_conn_tls_start :
+    Gen.Tls.rcDisabledName = "XMPP_EINVOP" ∧ Gen.Tls.rcNewFailName = "XMPP_EMEM" ∧
+    Gen.Tls.rcStartFailName = "XMPP_EINT" ∧ Gen.Tls.rcDisabled = -2 ∧ Gen.Tls.rcNewFail = -1 ∧
+    Gen.Tls.rcStartFail = -3 ∧
+    Gen.Tls.okBranchSetsSecured = true ∧ Gen.Tls.securedSetElsewhere = 0 ∧
+    Gen.Tls.failSetsTlsFailed = true ∧ Gen.Tls.failRestoresInterface = true ∧
+    Gen.Tls.failFreesTls = true ∧ Gen.Tls.failSetsError = true ∧
+    Gen.Tls.isSecuredExpr = "conn->secured && !conn->tls_failed && conn->tls != NULL" := by
+  decide
+
+/-- the callers: legacy SSL closes at once, STARTTLS ends the stream; the write pass tears a
+    connection with a pending error down with ECONNABORTED -/
+theorem pin_callers :
+    Gen.Tls.legacyOnFail = "conn_disconnect" ∧ Gen.Tls.starttlsOnFail = "xmpp_disconnect" ∧
+    Gen.Tls.teardownErrorName = "ECONNABORTED" ∧ Gen.Tls.teardownError = 103 := by
+  decide
+
+/-- xmpp_connect_client refuses a JID whose domain is empty or starts with a dot (XMPP_EINVOP) -/
+theorem pin_domain_check :
+    Gen.Tls.connectRefusesEmptyDomain = true ∧ Gen.Tls.connectRefusesDotDomain = true ∧
+    Gen.Tls.connectDomainRc = -2 := by
+  decide
+
+/-! ### the verification configuration the property demands -/
+
+/-- peer verification with libstrophe's callback is on unless the user set the trust flag -/
+theorem config_verifies_peer_unless_trusted (p : Policy) :
+    (p.trust = false → (sslCfg p).verifyMode = Gen.Tls.sslVerifyPeer ∧ (sslCfg p).hasCallback = true) ∧
+    (p.trust = true → (sslCfg p).verifyMode = Gen.Tls.sslVerifyNone ∧ (sslCfg p).hasCallback = false) :=
+  ⟨fun h => by simpa [pin_verify_modes.2.2.2.2.2.1] using cfg_notrust p h,
+   fun h => by simpa [pin_verify_modes.2.2.2.2.1] using cfg_trust p h⟩
+
+/-- partial wildcards are refused, whatever the policy -/
+theorem config_no_partial_wildcards (p : Policy) :
+    (sslCfg p).hostFlags = Gen.Tls.noPartialWildcards ∧ (sslCfg p).hostFlags = 4 := by
+  simp [sslCfg, pin_host.2.2.2.2.1, pin_host.2.2.2.2.2.1]
+
+/-- a connection that xmpp_connect_client lets through has exactly one expected host, the domain of
+    the JID, and the same name as SNI -/
+theorem config_pins_host (p : Policy) (h : connectRefused p.domain = false) :
+    (sslCfg p).hosts = [p.domain] ∧ (sslCfg p).sni = some p.domain := by
+  have hne : p.domain.isEmpty = false := by
+    cases hd : p.domain with
+    | nil => simp [connectRefused, hd, pin_domain_check.1] at h
+    | cons a as => rfl
+  simp [sslCfg, set1Host, sniOf, hne]
+
+/-- an empty domain or one that starts with a dot never gets as far as a handshake (an empty name
+    would clear OpenSSL's list of expected hosts, a leading dot would match every sub-domain) -/
+theorem refused_domains :
+    connectRefused [] = true ∧ ∀ d : Bytes, connectRefused (46 :: d) = true := by
+  constructor
+  · simp [connectRefused, pin_domain_check.1]
+  · intro d; simp [connectRefused, pin_domain_check.2.1]
+
+/-! ### secured ⇔ handshake succeeded ∧ (no failure ∨ trust flag ∨ every failure accepted) -/
+
+/-- `AcceptedFrom h 0 fs` spelled out: a handler is installed and its answer to the j-th failing
+    certificate (its j-th invocation) is not 0, for every j -/
+theorem accepted_each_spelled_out (h : Option Handler) (fs : List VCall) :
+    AcceptedFrom h 0 fs ↔ ∀ j v, fs[j]? = some v → ∃ f, h = some f ∧ f j v.depth v.err ≠ 0 := by
+  simpa using acceptedFrom_iff h fs 0
+
+/-- After conn_tls_start the connection reports secured iff TLS was not disabled, tls_new and the
+    handshake went through (the peer completed its side), no earlier failure marks the connection,
+    and: OpenSSL reported no failure, or the user set the trust flag, or the user's handler
+    accepted EACH failing certificate. -/
+theorem secured_iff (E : Engine) (P : Peer) (H : HOpenSsl E P) (c : Conn) :
+    isSecured (connTlsStart E c).1 = true ↔
+      c.policy.disabled = false ∧ E.newOk = true ∧ c.tlsFailed = false ∧ P.completes = true ∧
+      (failures (P.facts (sslCfg c.policy)) = [] ∨ c.policy.trust = true ∨
+        AcceptedFrom c.policy.handler 0 (failures (P.facts (sslCfg c.policy)))) := by
+  rw [secured_after, tlsStart_ok_iff E P H]
+  constructor
+  · rintro ⟨h1, h2, h3, h4, h5⟩
+    exact ⟨h1, h2, h3, h4, h5.elim (fun t => Or.inr (Or.inl t)) (fun a => Or.inr (Or.inr a))⟩
+  · rintro ⟨h1, h2, h3, h4, h5⟩
+    refine ⟨h1, h2, h3, h4, ?_⟩
+    rcases h5 with h5 | h5 | h5
+    · exact Or.inr (by rw [h5]; exact acceptedFrom_nil _ _)
+    · exact Or.inl h5
+    · exact Or.inr h5
+
+/-- the same in the property's words: "no failure reported" is, by H-openssl, "the certificate chains
+    to a configured trust anchor, is within its validity period and names the XMPP domain
+    (full-label wildcards only)" -/
+theorem secured_iff_good (E : Engine) (P : Peer) (H : HOpenSsl E P) (c : Conn)
+    (hdom : connectRefused c.policy.domain = false) (hwf : wellFormedDomain c.policy.domain = true) :
+    isSecured (connTlsStart E c).1 = true ↔
+      c.policy.disabled = false ∧ E.newOk = true ∧ c.tlsFailed = false ∧ P.completes = true ∧
+      ((P.cert.chains = true ∧ P.cert.inValidity = true ∧
+          P.cert.presented.any (fun n => namesHost n c.policy.domain) = true) ∨
+        c.policy.trust = true ∨
+        AcceptedFrom c.policy.handler 0 (failures (P.facts (sslCfg c.policy)))) := by
+  rw [secured_iff E P H]
+  have hh := (config_pins_host c.policy hdom).1
+  have hs := H.sound (sslCfg c.policy) (by rw [hh]; simpa using hwf) (config_no_partial_wildcards c.policy).2
+  have hgood : failures (P.facts (sslCfg c.policy)) = [] ↔
+      (P.cert.chains = true ∧ P.cert.inValidity = true ∧
+        P.cert.presented.any (fun n => namesHost n c.policy.domain) = true) := by
+    have : failures (P.facts (sslCfg c.policy)) = [] ↔ (P.facts (sslCfg c.policy)).all (·.ok) = true := by
+      simp [failures, List.filter_eq_nil_iff]
+    rw [this, hs]
+    simp [good, hostOk, hh, and_assoc]
+  rw [hgood]
+
+/-- soundness, the direction the property is about: a secured connection has a good certificate,
+    or the trust flag, or a handler that was asked about every failure and accepted each -/
+theorem secured_sound (E : Engine) (P : Peer) (H : HOpenSsl E P) (c : Conn)
+    (hdom : connectRefused c.policy.domain = false) (hwf : wellFormedDomain c.policy.domain = true)
+    (h : isSecured (connTlsStart E c).1 = true) :
+    good P.cert (sslCfg c.policy) = true ∨ c.policy.trust = true ∨
+      (failures (P.facts (sslCfg c.policy)) ≠ [] ∧
+        ∀ j v, (failures (P.facts (sslCfg c.policy)))[j]? = some v →
+          ∃ f, c.policy.handler = some f ∧ f j v.depth v.err ≠ 0) := by
+  have hh := (config_pins_host c.policy hdom).1
+  have hs := H.sound (sslCfg c.policy) (by rw [hh]; simpa using hwf) (config_no_partial_wildcards c.policy).2
+  rcases ((secured_iff E P H c).1 h).2.2.2.2 with h5 | h5 | h5
+  · left
+    rw [← hs]
+    simpa [failures, List.filter_eq_nil_iff] using h5
+  · exact Or.inr (Or.inl h5)
+  · by_cases hn : failures (P.facts (sslCfg c.policy)) = []
+    · left
+      rw [← hs]
+      simpa [failures, List.filter_eq_nil_iff] using hn
+    · exact Or.inr (Or.inr ⟨hn, (accepted_each_spelled_out _ _).1 h5⟩)
+
+/-- With no callback installed a failing certificate always aborts the handshake: XMPP_EINT, not
+    secured, marked tls_failed, TLS object gone, the plain interface back in place. -/
+theorem no_callback_aborts (E : Engine) (P : Peer) (H : HOpenSsl E P) (c : Conn)
+    (hd : c.policy.disabled = false) (hn : E.newOk = true)
+    (hnt : c.policy.trust = false) (hnc : c.policy.handler = none)
+    (hf : failures (P.facts (sslCfg c.policy)) ≠ []) :
+    (tlsStart E c.policy).ok = false ∧ (connTlsStart E c).2 = Gen.Tls.rcStartFail ∧
+    isSecured (connTlsStart E c).1 = false ∧ (connTlsStart E c).1.tlsFailed = true ∧
+    (connTlsStart E c).1.hasTls = false ∧ (connTlsStart E c).1.intfTls = c.intfTls := by
+  have ho : (tlsStart E c.policy).ok = false := by
+    cases hok : (tlsStart E c.policy).ok with
+    | false => rfl
+    | true =>
+      have := ((tlsStart_ok_iff E P H c.policy).1 hok).2
+      rw [hnt, hnc] at this
+      rcases this with h | h
+      · cases h
+      · cases hfs : failures (P.facts (sslCfg c.policy)) with
+        | nil => exact absurd hfs hf
+        | cons v vs => rw [hfs] at h; exact absurd h (not_acceptedFrom_none 0 v vs)
+  have hfh := failed_handshake E c hd hn ho
+  have hrc : (connTlsStart E c).2 ≠ 0 := by rw [hfh.1, pin_rc.2.2]; decide
+  have hfs := failed_start E c hrc
+  exact ⟨ho, hfh.1, hfs.1, hfh.2.1, hfs.2.1, hfs.2.2.1⟩
+
+/-- one rejection is enough: if the handler answers 0 to any failing certificate it is asked about,
+    the handshake is aborted and the connection is not secured -/
+theorem reject_one_aborts (E : Engine) (P : Peer) (H : HOpenSsl E P) (c : Conn)
+    (hnt : c.policy.trust = false) (f : Handler) (hh : c.policy.handler = some f)
+    (j : Nat) (v : VCall) (hv : (failures (P.facts (sslCfg c.policy)))[j]? = some v)
+    (hrej : f j v.depth v.err = 0) :
+    (tlsStart E c.policy).ok = false ∧ (connTlsStart E c).2 ≠ 0 ∧ isSecured (connTlsStart E c).1 = false := by
+  have ho : (tlsStart E c.policy).ok = false := by
+    cases hok : (tlsStart E c.policy).ok with
+    | false => rfl
+    | true =>
+      have := ((tlsStart_ok_iff E P H c.policy).1 hok).2
+      rw [hnt] at this
+      rcases this with h | h
+      · cases h
+      · obtain ⟨g, hg, hne⟩ := (accepted_each_spelled_out _ _).1 h j v hv
+        rw [hh] at hg
+        cases hg
+        exact absurd hrej hne
+  have hrc : (connTlsStart E c).2 ≠ 0 := by
+    intro h0
+    have := ((rc_zero_iff E c).1 h0).2.2
+    rw [ho] at this
+    cases this
+  exact ⟨ho, hrc, (failed_start E c hrc).1⟩
+
+/-- with the trust flag OpenSSL gets no callback and SSL_VERIFY_NONE: the user's handler is never
+    asked, the handshake succeeds whenever the peer completes it -/
+theorem trust_flag_skips_verification (E : Engine) (P : Peer) (H : HOpenSsl E P) (p : Policy)
+    (ht : p.trust = true) :
+    verifyCb p = none ∧ handlerCalls p (tlsStart E p).calls = [] ∧
+    ((tlsStart E p).ok = true ↔ P.completes = true) := by
+  refine ⟨verifyCb_trust p ht, by simp [handlerCalls, (cfg_trust p ht).2], ?_⟩
+  rw [tlsStart_ok_iff E P H]
+  simp [ht]
+
+/-- the handler is asked about failures only, in the order OpenSSL reports them, each time with the
+    number of earlier failures as its invocation index, and never again after it answered 0 -/
+theorem handler_sees_failures_in_order (E : Engine) (P : Peer) (H : HOpenSsl E P) (p : Policy)
+    (hc : P.completes = true) (ht : p.trust = false) :
+    (tlsStart E p).calls = run (tlsVerify p.handler) 0 (P.facts (sslCfg p)) ∧
+    ∀ k v, tlsVerify p.handler k v =
+      if v.ok then 1 else match p.handler with | none => 0 | some f => f k v.depth v.err := by
+  refine ⟨by simpa [ht] using tlsStart_calls E P H p hc, ?_⟩
+  intro k v
+  cases hv : v.ok <;> cases hh : p.handler <;> simp [tlsVerify, hv, pin_ret.1, pin_ret.2]
+
+/-! ### a failed start -/
+
+/-- whatever made conn_tls_start fail (TLS disabled, tls_new failed, handshake failed): not secured,
+    no TLS object, the interface and `secured` as they were, still the caller's to close -/
+theorem failed_start_restores (E : Engine) (c : Conn) (h : (connTlsStart E c).2 ≠ 0) :
+    isSecured (connTlsStart E c).1 = false ∧ (connTlsStart E c).1.hasTls = false ∧
+    (connTlsStart E c).1.intfTls = c.intfTls ∧ (connTlsStart E c).1.secured = c.secured ∧
+    (connTlsStart E c).1.state = c.state :=
+  failed_start E c h
+
+/-- a handshake that ran and failed answers XMPP_EINT, sets `tls_failed` (which by C02's
+    `tls_failed_never_secured` keeps xmpp_conn_is_secured false for the rest of the attempt) and
+    stores a non-zero error, which makes the next write pass tear the connection down -/
+theorem failed_handshake_marks_connection (E : Engine) (P : Peer) (H : HOpenSsl E P) (c : Conn)
+    (hd : c.policy.disabled = false) (hn : E.newOk = true) (ho : (tlsStart E c.policy).ok = false) :
+    (connTlsStart E c).2 = Gen.Tls.rcStartFail ∧ (connTlsStart E c).1.tlsFailed = true ∧
+    (connTlsStart E c).1.error ≠ 0 := by
+  have h := failed_handshake E c hd hn ho
+  refine ⟨h.1, h.2.1, ?_⟩
+  rw [h.2.2]
+  have : (tlsStart E c.policy).err ≠ 0 := by
+    intro h0
+    have := (H.err_iff (sslCfg c.policy) (verifyCb c.policy)).1 h0
+    unfold tlsStart at ho
+    rw [ho] at this
+    cases this
+  exact_mod_cast this
+
+/-- return code 0 iff TLS enabled, tls_new succeeded and the handshake succeeded -/
+theorem start_succeeds_iff (E : Engine) (c : Conn) :
+    (connTlsStart E c).2 = 0 ↔
+      c.policy.disabled = false ∧ E.newOk = true ∧ (tlsStart E c.policy).ok = true :=
+  rc_zero_iff E c
+
+/-! ### after a failed handshake the connection is torn down, not continued in the clear
+(the callers: `_handle_proceedtls_default` → xmpp_disconnect, `conn_established` → conn_disconnect, and
+the write pass of xmpp_run_once; the general statements about the connection machine are C02's
+`tls_failed_never_secured`, `mandatory_tls_gate` and C13's `one_disconnect_per_attempt`) -/
+
+/-- STARTTLS: after `<starttls/>` the only thing written is `</stream:stream>`, in the clear, and the
+    same loop iteration closes the connection (ECONNABORTED); nothing goes through TLS; no
+    credentials are sent -/
+theorem never_cleartext_after_failure_starttls (E : Engine) (P : Peer) (H : HOpenSsl E P) (p : Policy)
+    (hd : p.disabled = false) (hn : E.newOk = true) (ho : (tlsStart E p).ok = false) :
+    (start E p .starttls).clear = [.hdr, .starttls, .close] ∧ (start E p .starttls).enc = [] ∧
+    (start E p .starttls).queue = [] ∧
+    (start E p .starttls).conn.state = .disconnected ∧ isSecured (start E p .starttls).conn = false ∧
+    (start E p .starttls).evs = [.disconnect Gen.Tls.teardownError] := by
+  have he : (tlsStart E p).err ≠ 0 := by
+    intro h0
+    have := (H.err_iff (sslCfg p) (verifyCb p)).1 h0
+    unfold tlsStart at ho
+    rw [ho] at this
+    cases this
+  exact starttls_failure E p hd hn ho he
+
+/-- legacy SSL: nothing is written at all, the connection is closed at once with the TLS error -/
+theorem never_cleartext_after_failure_legacy (E : Engine) (p : Policy)
+    (hd : p.disabled = false) (hn : E.newOk = true) (ho : (tlsStart E p).ok = false) :
+    (start E p .legacy).clear = [] ∧ (start E p .legacy).enc = [] ∧ (start E p .legacy).queue = [] ∧
+    (start E p .legacy).conn.state = .disconnected ∧ isSecured (start E p .legacy).conn = false ∧
+    (start E p .legacy).evs = [.disconnect ((tlsStart E p).err : Int)] :=
+  legacy_failure E p hd hn ho
+
+/-- xmpp_conn_tls_start on a raw connection: the user gets XMPP_EINT, the plain interface is back,
+    and the next loop iteration closes the connection -/
+theorem never_cleartext_after_failure_raw (E : Engine) (P : Peer) (H : HOpenSsl E P) (p : Policy)
+    (hd : p.disabled = false) (hn : E.newOk = true) (ho : (tlsStart E p).ok = false) :
+    (start E p .direct).rc = some Gen.Tls.rcStartFail ∧
+    (start E p .direct).clear = [] ∧ (start E p .direct).enc = [] ∧
+    (start E p .direct).conn.state = .disconnected ∧ isSecured (start E p .direct).conn = false ∧
+    (start E p .direct).conn.intfTls = false := by
+  have he : (tlsStart E p).err ≠ 0 := by
+    intro h0
+    have := (H.err_iff (sslCfg p) (verifyCb p)).1 h0
+    unfold tlsStart at ho
+    rw [ho] at this
+    cases this
+  exact direct_failure E p hd hn ho he
+
+/-- once torn down nothing is written any more, whatever the user sends and however long it waits -/
+theorem torn_down_stays_silent (s : Sess) (h : s.conn.state = .disconnected) (gated : Bool) :
+    probe s gated = s ∧ tick s = s :=
+  ⟨probe_disconnected s gated h, tick_disconnected s h⟩
+
+/-- on every path and for every engine: data goes through TLS only after a successful handshake, and
+    then the connection reports secured -/
+theorem data_over_tls_only_if_secured (E : Engine) (p : Policy) (path : Path)
+    (h : (start E p path).enc ≠ []) :
+    p.disabled = false ∧ E.newOk = true ∧ (tlsStart E p).ok = true ∧
+    isSecured (start E p path).conn = true :=
+  enc_only_after_handshake E p path h
+
+/-- the `conn_tls_start` of this model and the one of the connection machine (Model/Conn.lean, on
+    which C02 / C03 / C13 are proved) are the same transition once the machine's two scripted bits
+    are what this model computes -/
+theorem same_transition_as_conn_machine (E : Engine) (k : Strophe.Conn.Conn) (c : Conn)
+    (h : Lemmas.TlsTrustConn.Rel k c) (hn : k.tlsNewFail = !E.newOk)
+    (hs : k.tlsStartFail = !(tlsStart E c.policy).ok) :
+    Lemmas.TlsTrustConn.Rel (Strophe.Conn.connTlsStart k).1 (connTlsStart E c).1 ∧
+    ((Strophe.Conn.connTlsStart k).2 = true ↔ (connTlsStart E c).2 = 0) ∧
+    Strophe.Conn.isSecured (Strophe.Conn.connTlsStart k).1 = isSecured (connTlsStart E c).1 :=
+  Lemmas.TlsTrustConn.connTlsStart_agrees E k c h hn hs
+
+/-! ### H-openssl is satisfiable -/
+
+theorem h_openssl_satisfiable (newOk completes : Bool) (cert : PeerCert) :
+    HOpenSsl (idealEngine newOk completes cert) (idealPeer completes cert) :=
+  ideal_satisfies newOk completes cert
+
+/-! ### the decision table of the property: {valid, wrong-name, partial-wildcard, expired,
+not-yet-valid, untrusted-issuer, self-signed} × {trust flag, no callback, callback accepting,
+callback rejecting} × {STARTTLS, legacy SSL, raw} × {CA file set or not}, evaluated on the model with
+the ideal engine -/
+
+inductive Kind | valid | wrongName | partialWildcard | expired | notYetValid | untrustedIssuer | selfSigned
+  deriving DecidableEq, Repr
+inductive Cb | trust | none | accept | reject deriving DecidableEq, Repr
+
+def fooExampleOrg : Bytes := cs ['f','o','o','.','e','x','a','m','p','l','e','.','o','r','g']
+def otherExampleCom : Bytes := cs ['o','t','h','e','r','.','e','x','a','m','p','l','e','.','c','o','m']
+def fStarExampleOrg : Bytes := cs ['f','*','.','e','x','a','m','p','l','e','.','o','r','g']
+def starExampleOrg : Bytes := cs ['*','.','e','x','a','m','p','l','e','.','o','r','g']
+
+/-- the chain as the property sees it; `caSet` = the test root is a configured trust anchor -/
+def certOf (k : Kind) (caSet : Bool) : PeerCert :=
+  match k with
+  | .valid => { chains := caSet, inValidity := true, dnsNames := [fooExampleOrg], cn := none }
+  | .wrongName => { chains := caSet, inValidity := true, dnsNames := [otherExampleCom], cn := none }
+  | .partialWildcard => { chains := caSet, inValidity := true, dnsNames := [fStarExampleOrg], cn := none }
+  | .expired => { chains := caSet, inValidity := false, dnsNames := [fooExampleOrg], cn := none }
+  | .notYetValid => { chains := caSet, inValidity := false, dnsNames := [fooExampleOrg], cn := none }
+  | .untrustedIssuer => { chains := false, inValidity := true, dnsNames := [fooExampleOrg], cn := none }
+  | .selfSigned => { chains := false, inValidity := true, dnsNames := [fooExampleOrg], cn := none }
+
+def policyOf (cb : Cb) : Policy :=
+  match cb with
+  | .trust => { domain := fooExampleOrg, trust := true }
+  | .none => { domain := fooExampleOrg }
+  | .accept => { domain := fooExampleOrg, handler := some fun _ _ _ => 1 }
+  | .reject => { domain := fooExampleOrg, handler := some fun _ _ _ => 0 }
+
+/-- what the property demands for a cell -/
+def expected (k : Kind) (cb : Cb) (caSet : Bool) : Bool :=
+  (k == .valid && caSet) || cb == .trust || cb == .accept
+
+def allKinds : List Kind := [.valid, .wrongName, .partialWildcard, .expired, .notYetValid, .untrustedIssuer, .selfSigned]
+def allCbs : List Cb := [.trust, .none, .accept, .reject]
+def allPaths : List Path := [.starttls, .legacy, .direct]
+
+/-- every cell: the connection ends up secured exactly when the property allows it; when it does
+    not, nothing went through TLS and — on the two library-driven paths — the connection is closed -/
+theorem decision_table :
+    (allKinds.all fun k => allCbs.all fun cb => allPaths.all fun path => [true, false].all fun caSet =>
+      let s := start (idealEngine true true (certOf k caSet)) (policyOf cb) path
+      (isSecured s.conn == expected k cb caSet) &&
+      (expected k cb caSet || (s.enc.isEmpty && !s.clear.contains .auth &&
+        (s.conn.state == .disconnected)))) = true := by
+  decide
+
+/-! ### non-vacuity: every hypothesis combination above is met by a concrete, non-trivial value -/
+
+def goodCert : PeerCert := certOf .valid true
+def wildCert : PeerCert := { chains := true, inValidity := true, dnsNames := [starExampleOrg], cn := none }
+def badCert : PeerCert := { chains := false, inValidity := false, dnsNames := [otherExampleCom], cn := none }
+
+/-- a good certificate, no handler, no trust flag: secured (`secured_iff`, left disjunct) -/
+example : isSecured (connTlsStart (idealEngine true true goodCert) { policy := policyOf .none }).1 = true := by
+  decide
+/-- a full-label wildcard names the domain, a partial one does not -/
+example : namesHost starExampleOrg fooExampleOrg = true ∧ namesHost fStarExampleOrg fooExampleOrg = false ∧
+    namesHost starExampleOrg (cs ['e','x','a','m','p','l','e','.','o','r','g']) = false ∧
+    namesHost starExampleOrg (cs ['a','.','f','o','o','.','e','x','a','m','p','l','e','.','o','r','g']) = false := by
+  decide
+example : isSecured (connTlsStart (idealEngine true true wildCert) { policy := policyOf .none }).1 = true := by
+  decide
+/-- three failing events (issuer, name, validity), all accepted by the handler: secured
+    (`secured_iff`, third disjunct; `secured_sound`, third disjunct with `failures ≠ []`) -/
+example : failures (idealFacts badCert (sslCfg (policyOf .accept))) =
+      [⟨false, 0, 20⟩, ⟨false, 0, 62⟩, ⟨false, 0, 10⟩] ∧
+    isSecured (connTlsStart (idealEngine true true badCert) { policy := policyOf .accept }).1 = true := by
+  decide
+/-- the same certificate, a handler that accepts the first two failures and rejects the third:
+    aborted after exactly three invocations (`reject_one_aborts` with j = 2) -/
+example :
+    let p : Policy := { domain := fooExampleOrg, handler := some fun i _ _ => if i < 2 then 1 else 0 }
+    (tlsStart (idealEngine true true badCert) p).ok = false ∧
+    (handlerCalls p (tlsStart (idealEngine true true badCert) p).calls).map (·.2) = [1, 1, 0] ∧
+    isSecured (connTlsStart (idealEngine true true badCert) { policy := p }).1 = false := by
+  decide
+/-- no handler, failing certificate (`no_callback_aborts`): XMPP_EINT, tls_failed -/
+example : (connTlsStart (idealEngine true true badCert) { policy := policyOf .none }).2 = -3 ∧
+    (connTlsStart (idealEngine true true badCert) { policy := policyOf .none }).1.tlsFailed = true := by
+  decide
+/-- trust flag (`trust_flag_skips_verification`): secured with the bad certificate, handler never asked -/
+example : isSecured (connTlsStart (idealEngine true true badCert) { policy := policyOf .trust }).1 = true ∧
+    handlerCalls (policyOf .trust) (tlsStart (idealEngine true true badCert) (policyOf .trust)).calls = [] := by
+  decide
+/-- a peer that never completes the handshake: not secured even with the trust flag -/
+example : isSecured (connTlsStart (idealEngine true false goodCert) { policy := policyOf .trust }).1 = false := by
+  decide
+/-- failed STARTTLS (`never_cleartext_after_failure_starttls`): header, starttls, closing tag; closed -/
+example : (start (idealEngine true true badCert) (policyOf .reject) .starttls).clear = [.hdr, .starttls, .close] ∧
+    (start (idealEngine true true badCert) (policyOf .reject) .starttls).conn.state = .disconnected := by
+  decide
+/-- successful STARTTLS (`data_over_tls_only_if_secured`): header and credentials go through TLS -/
+example : (start (idealEngine true true goodCert) (policyOf .none) .starttls).enc = [.hdr, .auth] ∧
+    (start (idealEngine true true goodCert) (policyOf .none) .starttls).clear = [.hdr, .starttls] := by
+  decide
+/-- `config_pins_host`, `refused_domains`: a usable domain is pinned, an unusable one is refused -/
+example : connectRefused fooExampleOrg = false ∧ wellFormedDomain fooExampleOrg = true ∧
+    (sslCfg (policyOf .none)).hosts = [fooExampleOrg] ∧ connectRefused (cs ['.','o','r','g']) = true := by
+  decide
+/-- `same_transition_as_conn_machine`: related states exist -/
+example : Lemmas.TlsTrustConn.Rel ({} : Strophe.Conn.Conn) { policy := policyOf .none } := by
+  simp [Lemmas.TlsTrustConn.Rel, policyOf]
 
 end Strophe.C08
